@@ -379,6 +379,44 @@ theorem stream_roundtrip (L : LibLaws) (H : HashFn) (rs : List Rec) :
         readLine_toJson L H _ r hr hnew, ih _ _ hinv' hrs, Except.map, List.map_cons]
 
 
+/-- The stream with failing writes in between: a write that raised leaves at most a descriptor line behind; every
+    record whose write succeeded is read back with its own descriptor, in order — the failed ones need not even be
+    well-typed. -/
+theorem stream_roundtrip_hist (L : LibLaws) (H : HashFn) (h : List (Rec × Bool)) :
+    ∀ (wreg rreg : Registry), (∀ k, regGet wreg k = regGet rreg k) → (∀ e ∈ h, e.2 = true → WellTyped L e.1) →
+      readAll L H rreg (writeHist H true wreg h) = .ok ((h.filter (·.2)).map (fun e => canonRec e.1)) := by
+  induction h with
+  | nil => intro _ _ _ _; rfl
+  | cons e rs ih =>
+    intro wreg rreg hinv hwt
+    obtain ⟨r, ok⟩ := e
+    have hrs : ∀ x ∈ rs, x.2 = true → WellTyped L x.1 := fun x hx => hwt x (List.mem_cons_of_mem _ hx)
+    cases ok with
+    | true =>
+      have hr : WellTyped L r := hwt (r, true) (List.mem_cons_self ..) rfl
+      by_cases hk : regGet wreg (ident H r.desc) = some r.desc
+      · have hk' : regGet rreg (ident H r.desc) = some r.desc := by rw [← hinv]; exact hk
+        simp only [writeHist, writeRec, if_pos hk, List.cons_append, List.nil_append, readAll,
+          readLine_toJson L H rreg r hr hk', ih wreg rreg hinv hrs, Except.map, List.filter_cons, if_true, List.map_cons]
+      · have hk' : ¬ regGet rreg (ident H r.desc) = some r.desc := by rw [← hinv]; exact hk
+        have hinv' : ∀ k, regGet (regSet wreg (ident H r.desc) r.desc) k = regGet (regSet rreg (ident H r.desc) r.desc) k := by
+          intro k; rw [regGet_regSet, regGet_regSet, hinv]
+        have hnew : regGet (regSet rreg (ident H r.desc) r.desc) (ident H r.desc) = some r.desc := by
+          rw [regGet_regSet, if_pos rfl]
+        simp only [writeHist, writeRec, if_neg hk, if_true, List.cons_append, List.nil_append, readAll,
+          readLine_descLine, if_neg hk',
+          readLine_toJson L H _ r hr hnew, ih _ _ hinv' hrs, Except.map, List.filter_cons, List.map_cons]
+    | false =>
+      by_cases hk : regGet wreg (ident H r.desc) = some r.desc
+      · simp only [writeHist, writeFailed, if_pos hk, List.nil_append, ih wreg rreg hinv hrs, List.filter_cons]
+        simp
+      · have hk' : ¬ regGet rreg (ident H r.desc) = some r.desc := by rw [← hinv]; exact hk
+        have hinv' : ∀ k, regGet (regSet wreg (ident H r.desc) r.desc) k = regGet (regSet rreg (ident H r.desc) r.desc) k := by
+          intro k; rw [regGet_regSet, regGet_regSet, hinv]
+        simp only [writeHist, writeFailed, if_neg hk, if_true, List.cons_append, List.nil_append, readAll,
+          readLine_descLine, if_neg hk', ih _ _ hinv' hrs, List.filter_cons]
+        simp
+
 theorem encFields_append (f1 f2 : List (Text × Text)) (v1 v2 : List FV) (h : f1.length = v1.length) :
     encFields (f1 ++ f2) (v1 ++ v2) = encFields f1 v1 ++ encFields f2 v2 := by
   induction f1 generalizing v1 with
